@@ -124,7 +124,7 @@ def toks(L, part):
 
 
 def is_input_token(t):
-    return not t.startswith("fresh@") and t not in ("file", "param", "ELEM")
+    return not t.startswith("fresh@") and not t.startswith("@") and t not in ("file", "param", "ELEM")  # "@name": a numeric argument
 
 
 def promote(a, b):
@@ -211,7 +211,12 @@ class Result(object):
 def _copy_env(env):
     out = {}
     for k, v in env.items():
-        out[k] = v.copy() if isinstance(v, Kw) else v
+        if isinstance(v, Kw):
+            out[k] = v.copy()
+            if getattr(v, "static", None):
+                out[k].static = v.static  # a branch copy of the analysis state still stands for the same shared object
+        else:
+            out[k] = v
     return out
 
 
@@ -299,7 +304,7 @@ class Interp(object):
                 if vt.is_a(idx, P + ".ResultParameter"):
                     return Lst("cmds", L=name, argobj=name)
                 if vt.is_a(idx, P + ".NumberParameter"):
-                    return Lst("nums", srcs=(name,), argobj=name)
+                    return Lst("nums", srcs=(name,), argobj=name, elem=Scal(D=frozenset({"@" + name})))
             return Lst("opaque")
         if pt.is_a(idx, P + ".NumberParameter"):
             return Scal(sym="kw:" + name)
@@ -892,6 +897,8 @@ class Interp(object):
         elif isinstance(t, ast.Subscript):
             base = self.ev(t.value, fr)
             if isinstance(base, Kw):
+                if getattr(base, "static", None):
+                    self.res.findings.append(("shared-table-mutation", stmt.lineno, "`%s = ...` stores into the %s `%s` itself: the entry is still there for the next execution of any instance" % (_src(t)[:60], "class attribute" if base.static[0] == "classattr" else "module-level table", base.static[-1]), self.fkey(fr), stmt))
                 base.d[self.const_key(t.slice, fr)] = v
                 base.optional.discard(self.const_key(t.slice, fr))
                 return
@@ -1373,6 +1380,8 @@ class ArrayInterp(Interp):
                 out = self.ev(expr, sfr)
             except Unsupported:
                 out = Other("opaque")
+        if isinstance(out, Kw):
+            out.static = key  # the one dict object every execution sees: a store into it outlives the call
         memo[key] = out
         return out
 
@@ -1627,6 +1636,12 @@ class ArrayInterp(Interp):
         if isinstance(idx, Other) and idx.tag == "slice" and not (isinstance(idx.info, tuple) and len(idx.info) == 2):
             idx = Other("slice", (Other("opaque"), Other("opaque")))  # a slice whose bounds differ between the paths that reach here
         is_slice = isinstance(idx, Other) and idx.tag == "slice"
+        if base.shape == "stackedflat":
+            # a layer (or a run of layers) of the flattened stack: still flattened - only reshape(<grid shape>) restores the grid
+            as_stacked = self.sub_arr(replace(base, shape="stacked"), idx, e, fr)
+            if isinstance(as_stacked, Arr):
+                return replace(as_stacked, shape={"same": "raveled", "stacked": "stackedflat"}.get(as_stacked.shape, "unknown"))
+            return as_stacked
         if base.shape in ("stacked", "rankdep"):
             if base.shape == "rankdep":
                 self.finding("shape", e, "layer index on a rank-dependent stack (numpy.vstack concatenates along the first data axis for rank >= 2, A10): %s" % _src(e), fr)
@@ -2038,6 +2053,9 @@ class ArrayInterp(Interp):
                 if key not in self.decl.inputs and meth == "get" and fr.func is self.decl.execute:
                     self.finding("kwkey", e, "kwargs.get(%r) reads a key that is not a declared input of %s" % (key, self.decl.cls.name), fr)
             return dflt
+        if meth in ("update", "setdefault", "pop", "clear", "popitem") and getattr(base, "static", None):
+            self.res.findings.append(("shared-table-mutation", e.lineno, "`%s` changes the %s `%s` itself (no copy is taken): what one execution writes into it - the caller's thresholds, say - is what the next execution of any instance finds as its defaults"
+                                      % (_src(e)[:60], "class attribute" if base.static[0] == "classattr" else "module-level table", base.static[-1]), self.fkey(fr), e))
         if meth == "update":
             other = self.ev(args[0], fr) if args else Kw()
             if isinstance(other, Kw):
@@ -2276,9 +2294,9 @@ class ArrayInterp(Interp):
                 self.finding("shape", e, "layer-axis sort on a rank-dependent stack (numpy.vstack, A10): for rank >= 2 axis 0 mixes cells of different positions", fr)
             elif base.shape == "flat" and not any(is_input_token(t_) for t_ in base.alias | base.dataof):
                 pass  # a private 1-D collection of values (compressed / selected cells) put in order: no grid cell moves
-            elif not (base.shape == "stacked" and ax0):
+            elif not (base.shape in ("stacked", "stackedflat") and ax0):
                 self.finding("equivariance", e, "sort along a data axis rearranges cells: %s" % _src(e), fr)
-            new = replace(base, sorted0=ax0 and base.shape in ("stacked", "rankdep"), ascending=base.shape in ("flat", "layervec") and ax is None)
+            new = replace(base, sorted0=ax0 and base.shape in ("stacked", "rankdep", "stackedflat"), ascending=base.shape in ("flat", "layervec") and ax is None)
             self.rebind(basenode, base, new, fr)
             return Other("none")
         if meth in ("soften_mask", "harden_mask", "unshare_mask", "shrink_mask"):
@@ -2665,6 +2683,10 @@ class ArrayInterp(Interp):
                 shape = "unknown"
             if isinstance(a0, Lst) and a0.what in ("arrs", "masks") and a0.L:
                 el = self.part_elem(a0)
+                if el.shape == "raveled" and shape == "stacked":
+                    shape = "stackedflat"  # every layer flattened the same way: (layers, cells in storage order)
+                elif el.shape != "same":
+                    shape = "unknown"
                 kind = el.kind if ".ma." in qn else "plain"
                 pc = el.Pc | (el.D if el.kind == "masked" and kind == "plain" else E)
                 return replace(el, shape=shape, alias=S(), kind=kind, M=el.M if kind == "masked" else (el.M if el.isbool else E), Pc=pc, maskof=E, dataof=E, rng=(None, None),
